@@ -24,81 +24,101 @@ const (
 
 func (r Result) String() string { return [...]string{"unknown", "sat", "unsat"}[r] }
 
-// Solver drives one persistent `z3 -in` process plus an external portfolio for hard queries.
+// backend is one persistent solver process speaking SMT-LIB2 on stdin/stdout.
+type backend struct {
+	name       string
+	argv       []string
+	header     string
+	z3Timeout  bool // supports (set-option :timeout) between queries
+	cmd        *exec.Cmd
+	in         io.WriteCloser
+	out        *bufio.Reader
+	defined    map[int]bool
+	pending    bytes.Buffer
+	curTimeout int
+}
+
+func (b *backend) start() error {
+	b.cmd = exec.Command(b.argv[0], b.argv[1:]...)
+	var err error
+	b.in, err = b.cmd.StdinPipe()
+	if err != nil {
+		return err
+	}
+	op, err := b.cmd.StdoutPipe()
+	if err != nil {
+		return err
+	}
+	b.cmd.Stderr = os.Stderr
+	b.out = bufio.NewReaderSize(op, 1<<16)
+	if err := b.cmd.Start(); err != nil {
+		return err
+	}
+	b.defined = map[int]bool{}
+	b.curTimeout = -1
+	b.pending.Reset()
+	b.pending.WriteString(b.header)
+	return nil
+}
+
+func (b *backend) close() {
+	if b.cmd != nil {
+		b.in.Close()
+		b.cmd.Process.Kill()
+		b.cmd.Wait()
+		b.cmd = nil
+	}
+}
+
+func (b *backend) send(str string) { b.pending.WriteString(str) }
+
+func (b *backend) flush() error {
+	_, err := b.in.Write(b.pending.Bytes())
+	b.pending.Reset()
+	return err
+}
+
+// Solver drives persistent z3 (bit-blasting) and cvc5 (bit-vectors as integers) processes plus a one-shot portfolio.
 type Solver struct {
 	tb      *TB
-	cmd     *exec.Cmd
-	in      io.WriteCloser
-	out     *bufio.Reader
-	defined map[int]bool
+	z3      *backend
+	cvc     *backend
 	cache   map[string]Result
 	// statistics
 	NQueries   int
 	NCacheHit  int
 	NExternal  int
 	NUnknown   int
+	NIntBackend int
 	SolverTime time.Duration
-	TimeoutMs  int // incremental query timeout
+	TimeoutMs  int // VC query timeout on the persistent back ends
 	ExtTimeout time.Duration
 	Log        io.Writer
 	scratch    string
 	ErrCount   int
-	pending    bytes.Buffer
 	CrossCheck bool // cross-check every VC (CheckModel) with a second solver
 	NCross     int
 	NDisagree  int
+	FeasTimeoutMs int
 }
 
 func NewSolver(tb *TB, scratch string) (*Solver, error) {
-	s := &Solver{tb: tb, defined: map[int]bool{}, cache: map[string]Result{}, TimeoutMs: 5000, ExtTimeout: 120 * time.Second, scratch: scratch}
-	if err := s.start(); err != nil {
+	s := &Solver{tb: tb, cache: map[string]Result{}, TimeoutMs: 5000, FeasTimeoutMs: 800, ExtTimeout: 120 * time.Second, scratch: scratch}
+	s.z3 = &backend{name: "z3", argv: []string{"z3", "-in"}, header: "(set-option :print-success false)\n", z3Timeout: true}
+	s.cvc = &backend{name: "cvc5-int", argv: []string{"cvc5", "--incremental", "--solve-bv-as-int=sum", "--tlimit-per=3000"}, header: "(set-logic QF_BV)\n(set-option :produce-models true)\n"}
+	if err := s.z3.start(); err != nil {
 		return nil, err
 	}
 	return s, nil
 }
 
-func (s *Solver) start() error {
-	s.cmd = exec.Command("z3", "-in")
-	var err error
-	s.in, err = s.cmd.StdinPipe()
-	if err != nil {
-		return err
-	}
-	op, err := s.cmd.StdoutPipe()
-	if err != nil {
-		return err
-	}
-	s.cmd.Stderr = os.Stderr
-	s.out = bufio.NewReaderSize(op, 1<<16)
-	if err := s.cmd.Start(); err != nil {
-		return err
-	}
-	s.defined = map[int]bool{}
-	s.send("(set-option :print-success false)\n(set-option :timeout " + strconv.Itoa(s.TimeoutMs) + ")\n")
-	return nil
-}
-
 func (s *Solver) Close() {
-	if s.cmd != nil {
-		s.in.Close()
-		s.cmd.Process.Kill()
-		s.cmd.Wait()
-		s.cmd = nil
-	}
-}
-
-func (s *Solver) send(str string) {
-	s.pending.WriteString(str)
-}
-
-func (s *Solver) flush() error {
-	_, err := s.in.Write(s.pending.Bytes())
-	s.pending.Reset()
-	return err
+	s.z3.close()
+	s.cvc.close()
 }
 
 // readResp reads one balanced s-expression or atom line.
-func (s *Solver) readResp() (string, error) {
+func (s *backend) readResp() (string, error) {
 	var sb strings.Builder
 	depth := 0
 	started := false
@@ -248,14 +268,17 @@ func (s *Solver) CheckModel(conj []*Term, vars []*Term) (Result, map[string]uint
 }
 
 func (s *Solver) check(conj []*Term, vars []*Term, vc bool) (Result, map[string]uint64) {
-	// trivial cases
 	var live []*Term
+	arith := false
 	for _, t := range conj {
 		if t.IsFalse() {
 			return Unsat, nil
 		}
 		if !t.IsTrue() {
 			live = append(live, t)
+			if t.Arith {
+				arith = true
+			}
 		}
 	}
 	key := cacheKey(live)
@@ -266,30 +289,47 @@ func (s *Solver) check(conj []*Term, vars []*Term, vc bool) (Result, map[string]
 		}
 	}
 	if len(live) == 0 {
-		m := map[string]uint64{}
-		return Sat, m
+		return Sat, map[string]uint64{}
 	}
 	s.NQueries++
 	t0 := time.Now()
 	defer func() { s.SolverTime += time.Since(t0) }()
-	res, model, err := s.incremental(live, vars)
-	if err != nil {
-		s.ErrCount++
-		if s.Log != nil {
-			fmt.Fprintf(s.Log, "solver error: %v; restarting\n", err)
+	tmo := s.TimeoutMs
+	if !vc {
+		tmo = s.FeasTimeoutMs
+	}
+	order := []*backend{s.z3, s.cvc}
+	if arith {
+		order = []*backend{s.cvc, s.z3}
+	}
+	res := Unknown
+	var model map[string]uint64
+	for i, b := range order {
+		if i == 1 && !vc && !arith {
+			break // feasibility of non-arithmetic queries: z3 only
 		}
-		s.Close()
-		if e2 := s.start(); e2 != nil {
-			panic(e2)
+		if b == s.cvc {
+			s.NIntBackend++
 		}
-		res = Unknown
+		tq := time.Now()
+		res, model = s.runBackend(b, live, vars, tmo)
+		if s.Log != nil && time.Since(tq) > 500*time.Millisecond {
+			fmt.Fprintf(s.Log, "slow query (%s %v, vc=%v): %s -> %v\n", b.name, time.Since(tq), vc, describe(live), res)
+		}
+		if res != Unknown {
+			break
+		}
 	}
 	if res == Unknown && vc {
 		s.NExternal++
 		res, model = s.external(live, vars, s.ExtTimeout)
 	} else if vc && s.CrossCheck && res != Unknown {
 		s.NCross++
-		r2, _ := s.externalOne("cvc5", live, nil, s.ExtTimeout)
+		other := "cvc5"
+		if arith {
+			other = "z3-new"
+		}
+		r2, _ := s.externalOne(other, live, nil, 30*time.Second)
 		if r2 != Unknown && r2 != res {
 			s.NDisagree++
 			res = Unknown
@@ -304,7 +344,75 @@ func (s *Solver) check(conj []*Term, vars []*Term, vc bool) (Result, map[string]
 	return res, model
 }
 
-func (s *Solver) incremental(live []*Term, vars []*Term) (Result, map[string]uint64, error) {
+func (s *Solver) runBackend(b *backend, live, vars []*Term, tmo int) (Result, map[string]uint64) {
+	if b.cmd == nil {
+		if err := b.start(); err != nil {
+			return Unknown, nil
+		}
+	}
+	res, model, err := b.query(live, vars, tmo)
+	if err != nil {
+		s.ErrCount++
+		if s.Log != nil {
+			fmt.Fprintf(s.Log, "solver %s error: %v; restarting\n", b.name, err)
+		}
+		b.close()
+		return Unknown, nil
+	}
+	return res, model
+}
+
+// Feasible decides sat(pc AND c) using only the conjuncts of pc connected to c through shared variables
+// (pc itself is satisfiable by construction, so the disconnected part cannot change the answer).
+func (s *Solver) Feasible(pc []*Term, c *Term) Result {
+	cv := c.Vars()
+	if len(cv) == 0 {
+		return s.Check([]*Term{c})
+	}
+	inSet := map[int32]bool{}
+	for _, v := range cv {
+		inSet[v] = true
+	}
+	used := make([]bool, len(pc))
+	changed := true
+	for changed {
+		changed = false
+		for i, p := range pc {
+			if used[i] {
+				continue
+			}
+			hit := false
+			for _, v := range p.Vars() {
+				if inSet[v] {
+					hit = true
+					break
+				}
+			}
+			if hit {
+				used[i] = true
+				changed = true
+				for _, v := range p.Vars() {
+					inSet[v] = true
+				}
+			}
+		}
+	}
+	var q []*Term
+	for i, p := range pc {
+		if used[i] {
+			q = append(q, p)
+		}
+	}
+	q = append(q, c)
+	return s.Check(q)
+}
+
+func (b *backend) query(live []*Term, vars []*Term, timeoutMs int) (Result, map[string]uint64, error) {
+	s := b
+	if b.z3Timeout && timeoutMs != b.curTimeout {
+		s.send("(set-option :timeout " + strconv.Itoa(timeoutMs) + ")\n")
+		b.curTimeout = timeoutMs
+	}
 	emitDefs(live, s.defined, &s.pending)
 	if len(vars) > 0 {
 		emitDefs(vars, s.defined, &s.pending)
@@ -330,6 +438,10 @@ func (s *Solver) incremental(live []*Term, vars []*Term) (Result, map[string]uin
 	case "unknown":
 		res = Unknown
 	default:
+		if strings.Contains(resp, "timeout") || strings.Contains(resp, "interrupted") {
+			res = Unknown
+			break
+		}
 		return Unknown, nil, fmt.Errorf("unexpected solver response %q", resp)
 	}
 	var model map[string]uint64
@@ -527,4 +639,15 @@ func (s *Solver) external(conj, vars []*Term, timeout time.Duration) (Result, ma
 		return Unknown, nil
 	}
 	return first.res, first.model
+}
+
+func describe(conj []*Term) string {
+	if len(conj) == 0 {
+		return "true"
+	}
+	last := conj[len(conj)-1].String()
+	if len(last) > 300 {
+		last = last[:300] + "..."
+	}
+	return fmt.Sprintf("%d conjuncts, last=%s", len(conj), last)
 }
